@@ -36,8 +36,9 @@ class XLFormula(XLType):
                     and (token.tsubtype == ExcelParserTokens.TOK_SUBTYPE_RANGE)
                     and (token.tvalue not in self.terms)
             ):
-                # Make sure we have a full address.
-                term = token.tvalue
+                # Make sure we have a full address (without the `$` of
+                # absolute references).
+                term = token.tvalue.replace('$', '')
                 if '!' not in term:
                     term = f'{self.sheet_name}!{term}'
                 self.terms.append(term)
